@@ -142,13 +142,18 @@ class TaskFactory:
         """
         task_handle = TaskHandle(name=name or callable_name(func))
         self._tasks.add(task_handle)
-        task_handle.start_value = await self._task_group.start(
-            self._run_background_task,
-            func,
-            task_handle,
-            self.exception_handler,
-            name=task_handle.name,
-        )
+        try:
+            task_handle.start_value = await self._task_group.start(
+                self._run_background_task,
+                func,
+                task_handle,
+                self.exception_handler,
+                name=task_handle.name,
+            )
+        except BaseException:
+            self._tasks.discard(task_handle)
+            raise
+
         return task_handle
 
     def start_task_soon(
@@ -170,13 +175,18 @@ class TaskFactory:
         """
         task_handle = TaskHandle(name=name or callable_name(func))
         self._tasks.add(task_handle)
-        self._task_group.start_soon(
-            self._run_background_task,
-            func,
-            task_handle,
-            self.exception_handler,
-            name=task_handle.name,
-        )
+        try:
+            self._task_group.start_soon(
+                self._run_background_task,
+                func,
+                task_handle,
+                self.exception_handler,
+                name=task_handle.name,
+            )
+        except BaseException:
+            self._tasks.discard(task_handle)
+            raise
+
         return task_handle
 
     async def _run_background_task(
